@@ -611,11 +611,19 @@ def noiseEncode (nm : Record) : Record :=
   (nm.filter (fun kv => kv.1 ≠ "with_leakage" && kv.1 ≠ "eff_noise_rates" && kv.1 ≠ "eff_noise_opers"))
     ++ [("eff_noise", .list (List.zipWith (fun a b => Value.list [a, b]) rates opers))]
 
+def pairFst : Value → Option Value
+  | .list [a, _] => some a
+  | _ => none
+
+def pairSnd : Value → Option Value
+  | .list [_, b] => some b
+  | _ => none
+
 /-- `_deserialize_noise_model`: only the *relevant* parameters are handed to the constructor. -/
 def noiseDecode (N : NoiseTables) (j : Record) : Record :=
   let pairs := match j.get? "eff_noise" with | some (.list xs) => xs | _ => []
-  let rates := pairs.filterMap (fun p => match p with | .list [a, _] => some a | _ => none)
-  let opers := pairs.filterMap (fun p => match p with | .list [_, b] => some b | _ => none)
+  let rates := pairs.filterMap pairFst
+  let opers := pairs.filterMap pairSnd
   let types := strList (j.getD "noise_types" (.list []))
   let withLeakage := types.contains "leakage"
   let rel := isRelevant N types (j.getD "state_prep_error" (.num 0)) (j.getD "amp_sigma" (.num 0))
@@ -652,6 +660,10 @@ def noiseTablesOk (N : NoiseTables) : Bool :=
   (N.paramsOf "amplitude").contains "laser_waist" &&
   !N.zeroed.contains "with_leakage" &&
   N.defaults.all (fun kv => !kv.2.truthy) &&
+  -- the names `_to_abstract_repr` / `_deserialize_noise_model` treat specially
+  N.params.contains "eff_noise_rates" && N.params.contains "eff_noise_opers" &&
+  !N.params.contains "eff_noise" &&
+  !N.zeroed.contains "eff_noise_rates" && !N.zeroed.contains "eff_noise_opers" &&
   decide (((N.params.filter (· ≠ "with_leakage")).map (fun p => (lookupStr N.simRename p).getD p)).Nodup) &&
   !((N.params.map (fun p => (lookupStr N.simRename p).getD p)).contains "noise")
 
